@@ -30,7 +30,47 @@ import (
 // backend used directly and over hybrid(memory); after every step the client's ACTIVE codes are
 // counted by an independent scan of the stored records.
 
+// readFaults is the storage facade of the history worlds: it can make one READ of the quota count (Get of a
+// code record by id, GetList of a client's code index) fail with a transient error.
+type readFaults struct {
+	storage.FullStorage
+	armed  bool
+	failAt int
+	seen   int
+	fired  string
+}
+
+func (f *readFaults) hit(op, key string) error {
+	if !f.armed {
+		return nil
+	}
+	i := f.seen
+	f.seen++
+	if i == f.failAt {
+		f.fired = op + " " + key
+		return fmt.Errorf("%w (%s %s)", vkit.ErrGateFault, op, key)
+	}
+	return nil
+}
+func (f *readFaults) Get(k string) (any, error) {
+	if strings.HasPrefix(k, "tunnox:runtime:conncode:id:") {
+		if err := f.hit("Get", k); err != nil {
+			return nil, err
+		}
+	}
+	return f.FullStorage.Get(k)
+}
+func (f *readFaults) GetList(k string) ([]any, error) {
+	if strings.HasPrefix(k, "tunnox:index:conncode:target:") {
+		if err := f.hit("GetList", k); err != nil {
+			return nil, err
+		}
+	}
+	return f.FullStorage.GetList(k)
+}
+
 type hworld struct {
+	rf     *readFaults
 	cancel context.CancelFunc
 	raw    *memory.Storage
 	st     storage.Storage
@@ -42,10 +82,12 @@ type hworld struct {
 func newHWorld(backend string, limit int) *hworld {
 	ctx, cancel := context.WithCancel(context.Background())
 	w := &hworld{cancel: cancel, raw: memory.New(ctx), next: 74000000}
-	w.st = w.raw
+	var under storage.FullStorage = w.raw
 	if backend == "hybrid" {
-		w.st = hybrid.NewWithSharedCache(ctx, w.raw, nil, nil, hybrid.DefaultConfig())
+		under = hybrid.NewWithSharedCache(ctx, w.raw, nil, nil, hybrid.DefaultConfig())
 	}
+	w.rf = &readFaults{FullStorage: under}
+	w.st = w.rf
 	repo := repos.NewRepository(w.st)
 	pmRepo := repos.NewPortMappingRepo(repo)
 	idm := idgen.NewIDManager(w.st, ctx)
@@ -114,8 +156,12 @@ func runHistory(t vkit.TB, w *hworld, c Case) bool {
 	nontrivial := false
 	for si, a := range c.Hist {
 		idx := 0
-		if len(a) > 1 {
+		if len(a) > 1 && a[0] != 'C' {
 			fmt.Sscanf(a[1:], "%d", &idx)
+		}
+		faultAt := -1
+		if strings.HasPrefix(a, "Cf") {
+			fmt.Sscanf(a[2:], "%d", &faultAt)
 		}
 		var h *hcode
 		if a[0] != 'C' {
@@ -134,11 +180,27 @@ func runHistory(t vkit.TB, w *hworld, c Case) bool {
 				}
 			}
 			snap := w.records()
+			w.rf.armed, w.rf.failAt, w.rf.seen, w.rf.fired = faultAt >= 0, faultAt, 0, ""
 			rec, err := w.cc.CreateConnectionCode(&services.CreateConnectionCodeRequest{TargetClientID: target, TargetAddress: "tcp://10.0.0.9:80", ActivationTTL: time.Hour, CreatedBy: "verif"})
+			w.rf.armed = false
+			faulted := w.rf.fired != ""
 			if err == nil {
 				codes = append(codes, &hcode{rec: rec, state: "active", present: true})
 			}
 			got := w.activeCodes(target)
+			if faulted {
+				// under a transient read failure the create may fail (fail closed), but it must never be
+				// admitted beyond the quota
+				vkit.Class("history-read-fault:" + strings.SplitN(w.rf.fired, " ", 2)[0])
+				if got > c.Limit {
+					vkit.Violation(t, base+"over-admission-under-read-fault/backend="+c.Backend, fmt.Sprintf("backend=%s, quota %d, history %s (step %d): %d active before; the quota count's read %q failed; create -> err=%v, %d active codes stored now", c.Backend, c.Limit, strings.Join(c.Hist, " "), si, before, w.rf.fired, err, got), c)
+					return false
+				}
+				if before >= c.Limit {
+					nontrivial = true
+				}
+				break
+			}
 			where := fmt.Sprintf("backend=%s, quota %d, history %s (step %d): %d active before, create -> err=%v, %d active codes stored now", c.Backend, c.Limit, strings.Join(c.Hist, " "), si, before, err, got)
 			switch {
 			case got > c.Limit:
@@ -193,6 +255,9 @@ func TestQuotaHistoriesExhaustive(t *testing.T) {
 		{1, 5, []string{"C", "R0", "R1", "A0", "L0", "L1"}},
 		{2, 6, []string{"C", "R0", "A1", "L0", "L1"}},
 	}
+	for q := 1; q <= 3; q++ { // creates whose k-th quota-count read fails (k=0: the index list, k>=1: a code record)
+		spaces = append(spaces, space{q, 5, []string{"C", "Cf0", "Cf1", "Cf2", "Cf3", "R0", "L0"}})
+	}
 	if vkit.Thorough() {
 		spaces = append(spaces, space{3, 7, []string{"C", "R0", "R1", "L0", "L1"}}, space{2, 7, []string{"C", "R0", "A0", "L0", "L1", "L2"}})
 	}
@@ -213,7 +278,7 @@ func TestQuotaHistoriesExhaustive(t *testing.T) {
 					hist[j] = sp.alpha[x%len(sp.alpha)]
 					x /= len(sp.alpha)
 				}
-				if hist[0] != "C" || hist[sp.depth-1] != "C" { // histories start and end with a create (others are prefixes/no-ops)
+				if hist[0] != "C" || hist[sp.depth-1][0] != 'C' { // histories start and end with a create (others are prefixes/no-ops)
 					continue
 				}
 				if w.used >= 40 { // keep the independent scan cheap
@@ -237,9 +302,12 @@ func TestQuotaHistoriesRandom(t *testing.T) {
 	vkit.Check(t, 2400, 40000, func(t *rapid.T) {
 		c := Case{Kind: "code-quota-history", Limit: rapid.IntRange(1, 3).Draw(t, "quota"), Backend: rapid.SampledFrom([]string{"memory", "hybrid"}).Draw(t, "backend")}
 		step := rapid.Custom(func(t *rapid.T) string {
-			k := rapid.SampledFrom([]string{"C", "C", "C", "C", "R", "R", "A", "L", "L", "L"}).Draw(t, "op")
+			k := rapid.SampledFrom([]string{"C", "C", "C", "C", "Cf", "R", "R", "A", "L", "L", "L"}).Draw(t, "op")
 			if k == "C" {
 				return k
+			}
+			if k == "Cf" {
+				return fmt.Sprintf("Cf%d", rapid.IntRange(0, 4).Draw(t, "failingRead"))
 			}
 			return fmt.Sprintf("%s%d", k, rapid.IntRange(0, 4).Draw(t, "code"))
 		})
